@@ -3,7 +3,8 @@ import ZvbiModel.Cc.Spec
 /-!
 Driver of the `Eia608` reference model (property oracle of C08): same op lines as `cc`;
 `cc f hex` advances the reference decoder, `fetch n` prints the page the standard makes
-visible for service n (run-length coded like harness/cc_harness.c, without dirty fields).
+visible for service n (run-length coded like harness/cc_harness.c, without dirty fields), followed by
+` m=` and the same page without solid spaces (display memory only).
 Every other op answers `ok`.
 -/
 namespace Zvbi.Driver.Cc608
@@ -25,6 +26,20 @@ def rle (cells : List RCell) : String :=
       if x == c then go xs (some (c, n + 1)) acc else go xs (some (x, 1)) (s!"{n}*{cellTok c}" :: acc)
   ",".intercalate (go cells none [])
 
+/-- the display memory alone, without the solid spaces `render` adds: an empty cell prints as the blank cell.
+    `fetch` prints it as a second field (`m=`), so that the oracle can tell cells the standard defines
+    (a character or attribute code was stored there) from cells it leaves to the decoder. -/
+def memCell (isText : Bool) (m : Mem) (r c : Nat) : RCell :=
+  match inside m r c with
+  | some x => cellOf x
+  | none => { unicode := 0x20, underline := false, italic := false, flash := false,
+              opacity := if isText then 3 else 0, fg := 7, bg := 0 }
+
+def memOnly (s : St) (i : Nat) : List RCell :=
+  match s.svc[i]? with
+  | some v => (List.range 15).flatMap (fun r => (List.range 34).map (fun c => memCell v.isText v.disp r c))
+  | none => []
+
 def step (s : St) (ws : List String) : St × String :=
   match ws with
   | ["cc", f, h] =>
@@ -34,7 +49,7 @@ def step (s : St) (ws : List String) : St × String :=
      | _, _ => (s, "rej parse"))
   | ["fetch", n] =>
     (match parseInt n with
-     | some n => if n < 1 || n > 8 then (s, "ok false") else (s, s!"ok {rle (s.visible (n.toNat - 1))}")
+     | some n => if n < 1 || n > 8 then (s, "ok false") else (s, s!"ok {rle (s.visible (n.toNat - 1))} m={rle (memOnly s (n.toNat - 1))}")
      | none => (s, "rej parse"))
   | ["chsw"] => (init, "ok")
   | _ => (s, "ok")
